@@ -35,7 +35,7 @@ def bsOk : Str → Bool
   | [] => true
   | c :: rest => (if c == '\\' then bsNext rest else c != '`') && bsOk rest
 
-/-- **`inertBody3` with literal backslashes admitted** -/
+/-- **`inertBody3` with literal backslashes allowed** -/
 def inertBody4 (s : Str) : Bool :=
   bsOk s && ltOk2 s && ampOk2 s && tildeOk s && brOkG false false s && emphOk2 false false ' ' s
 
@@ -200,4 +200,402 @@ theorem findCoreTokens_inert4 (strict : Bool) (s : Str) (fn : Footnotes.Table) (
   rw [processEmphasis_nopair s _ _ hds.head hds.pair]
   simp [hms, hcs]
 
+
+/-! ## the regex scanners -/
+
+theorem escapeAt_none4 (prev : Option Char) (c : Char) (rest : Str) (h : bsOk (c :: rest) = true) :
+    escapeAt prev (c :: rest) = none := by
+  by_cases hc : c = '\\'
+  · subst hc
+    obtain ⟨d, r, rfl, hd, _⟩ := bsOk_bs rest h
+    simp [escapeAt, hd]
+  · exact escapeAt_none prev c rest hc
+
+/-- a literal backslash: exactly one leading backslash, so `(?:\\\\)*` cannot consume it -/
+theorem leadingBackslashes_one (d : Char) (r : Str) (hd : escapable d = false) :
+    leadingBackslashes ('\\' :: d :: r) = 1 := by
+  have d6 := (escapable_of d hd).2.2.2.2.2.1
+  simp [leadingBackslashes, countLeading, d6]
+
+theorem strikeAt_none4 (prev : Option Char) (c : Char) (rest : Str) (h : bsOk (c :: rest) = true)
+    (ht : (c == '~' && rest.head? == some '~') = false) : strikeAt prev (c :: rest) = none := by
+  by_cases hc : c = '\\'
+  · subst hc
+    obtain ⟨d, r, rfl, hd, _⟩ := bsOk_bs rest h
+    unfold strikeAt
+    split
+    · rfl
+    · simp [leadingBackslashes_one d r hd]
+  · exact strikeAt_none prev c rest hc ht
+
+theorem autoLinkAt_none4 (prev : Option Char) (c : Char) (rest : Str) (h : bsOk (c :: rest) = true)
+    (hl : (c != '<' || ltNext2 rest) = true) : autoLinkAt prev (c :: rest) = none := by
+  by_cases hc : c = '\\'
+  · subst hc
+    obtain ⟨d, r, rfl, hd, _⟩ := bsOk_bs rest h
+    unfold autoLinkAt
+    split
+    · rfl
+    · simp [leadingBackslashes_one d r hd]
+  · exact autoLinkAt_none2 prev c rest hc hl
+
+/-- what the regex scanners need of the text -/
+structure ScanOk4 (s : Str) : Prop where
+  bs : bsOk s = true
+  lt : ltOk2 s = true
+  tilde : tildeOk s = true
+
+theorem ScanOk4.tail {c : Char} {rest : Str} (h : ScanOk4 (c :: rest)) : ScanOk4 rest := by
+  obtain ⟨h1, h2, h3⟩ := h
+  simp only [ltOk2, tildeOk, Bool.and_eq_true] at h2 h3
+  exact ⟨bsOk_tail c rest h1, h2.2, h3.2⟩
+
+theorem ScanOk4.head_lt {c : Char} {rest : Str} (h : ScanOk4 (c :: rest)) : (c != '<' || ltNext2 rest) = true := by
+  have := h.lt
+  simp only [ltOk2, Bool.and_eq_true] at this
+  exact this.1
+
+theorem ScanOk4.head_tilde {c : Char} {rest : Str} (h : ScanOk4 (c :: rest)) : (c == '~' && rest.head? == some '~') = false := by
+  have := h.tilde
+  simp only [tildeOk, Bool.and_eq_true, Bool.not_eq_eq_eq_not, Bool.not_true] at this
+  exact this.1
+
+/-- except for `LineBreak`, no covered class finds anything -/
+theorem findOne_scan4 (s : Str) (h : ScanOk4 s) (t : STok) (ht : inertClass t = true) (hlb : t ≠ .lineBreak) :
+    findOne s [] [] t = [] := by
+  cases t with
+  | escapeSequence =>
+    simp only [findOne, List.map_eq_nil_iff]
+    exact findIter_nil _ ScanOk4 (fun _ _ => ScanOk4.tail) (fun p c r hq => escapeAt_none4 p c r hq.bs) s h
+  | htmlSpan =>
+    simp only [findOne, List.map_eq_nil_iff]
+    exact findIter_nil _ ScanOk4 (fun _ _ => ScanOk4.tail) (fun p c r hq => htmlSpanAt_none2 p c r hq.head_lt) s h
+  | strikethrough =>
+    simp only [findOne, List.map_eq_nil_iff]
+    exact findIter_nil _ ScanOk4 (fun _ _ => ScanOk4.tail)
+      (fun p c r hq => strikeAt_none4 p c r hq.bs hq.head_tilde) s h
+  | autoLink =>
+    simp only [findOne, List.map_eq_nil_iff]
+    exact findIter_nil _ ScanOk4 (fun _ _ => ScanOk4.tail)
+      (fun p c r hq => autoLinkAt_none4 p c r hq.bs hq.head_lt) s h
+  | coreTokens => rfl
+  | inlineCode => rfl
+  | lineBreak => exact absurd rfl hlb
+  | math => cases ht
+  | githubWiki => cases ht
+  | xwikiMacroStart => rfl
+  | xwikiMacroEnd => rfl
+
+theorem findAll_gen4 (s : Str) (types : List STok) (fn : Footnotes.Table) (ht : ∀ t ∈ types, inertClass t = true)
+    (hs : ScanOk4 s) (hcore : findCoreTokens s fn = .ok ([], [])) (hnl : '\n' ∉ s) : findAll s types fn = .ok [] := by
+  rw [findAll_core_gen s types fn hcore]
+  congr 1
+  rw [List.flatMap_eq_nil_iff]
+  intro t htm
+  by_cases hlb : t = .lineBreak
+  · subst hlb; exact findOne_lineBreak s hnl
+  · exact findOne_scan4 s hs t (ht t htm) hlb
+
+/-! ## `LineBreak.find` on lines joined by "\n": no backslash stands directly before a "\n" -/
+
+theorem lineBreakAt_mid4 (prev : Option Char) (t x : Str) (hne : t ≠ []) (hn : '\n' ∉ t) (hb : bsOk (t ++ x) = true)
+    (hl : t.getLast? ≠ some ' ') : lineBreakAt prev (t ++ x) = none := by
+  obtain ⟨d, h1, h2⟩ := nl_idx x t hne hn hl
+  unfold lineBreakAt
+  simp only [h1]
+  have : (some d == some '\n') = false := by simp [h2]
+  simp only [this, Bool.false_eq_true, if_false]
+  cases t with
+  | nil => exact absurd rfl hne
+  | cons c t' =>
+    split
+    · rename_i tl heq
+      simp only [List.cons_append, List.cons.injEq] at heq
+      obtain ⟨rfl, heq2⟩ := heq
+      obtain ⟨d', r', e, _, hd'⟩ := bsOk_bs (t' ++ x) hb
+      rw [e] at heq2
+      simp only [List.cons.injEq] at heq2
+      exact absurd heq2.1 hd'
+    · rfl
+
+theorem scanLine4 (more : Str) (f : Nat) : ∀ (t : Str) (pos : Nat) (prev : Option Char), '\n' ∉ t →
+    bsOk (t ++ '\n' :: more) = true → (t ≠ [] → t.getLast? ≠ some ' ') →
+    findIterAux lineBreakAt (t.length + 1 + f) pos prev (t ++ '\n' :: more) =
+      { start := pos + t.length, stop := pos + t.length + 1, gs := pos + t.length, ge := pos + t.length } ::
+        findIterAux lineBreakAt f (pos + t.length + 1) (some '\n') more
+  | [], pos, prev, _, _, _ => by
+    have e : lineBreakAt prev ('\n' :: more) = some (1, 0, 0) := by
+      simp [lineBreakAt, countLeading]
+    have e2 : ([] : Str).length + 1 + f = f + 1 := by simp; omega
+    rw [e2]
+    simp [findIterAux, e]
+  | c :: t, pos, prev, hn, hb, hl => by
+    have hnone := lineBreakAt_mid4 prev (c :: t) ('\n' :: more) (by simp) hn hb (hl (by simp))
+    have e2 : (c :: t).length + 1 + f = (t.length + 1 + f) + 1 := by simp; omega
+    rw [e2]
+    simp only [List.cons_append] at hnone hb ⊢
+    simp only [findIterAux, hnone]
+    rw [scanLine4 more f t (pos + 1) (some c) (fun hm => hn (List.mem_cons_of_mem _ hm))
+      (bsOk_tail _ _ hb)
+      (by
+        intro hne
+        cases t with
+        | nil => exact absurd rfl hne
+        | cons d t' => simpa [List.getLast?_cons_cons] using hl (by simp))]
+    simp only [List.length_cons]
+    have a1 : pos + 1 + t.length = pos + (t.length + 1) := by omega
+    rw [a1]
+
+/-- the shape of a paragraph line: non-empty, no newline, not ending in a space (backslashes allowed) -/
+structure LineOk4 (t : Str) : Prop where
+  ne : t ≠ []
+  nl : '\n' ∉ t
+  sp : t.getLast? ≠ some ' '
+
+open Mistletoe.Document in
+theorem findIter_lines4 : ∀ (ts : List Str) (pos : Nat) (prev : Option Char) (f : Nat), (∀ t ∈ ts, LineOk4 t) →
+    bsOk (joinNl ts) = true →
+    findIterAux lineBreakAt ((joinNl ts).length + 1 + f) pos prev (joinNl ts) = nlMatches pos ts
+  | [], pos, prev, f, _, _ => by simp [joinNl, findIterAux, nlMatches]
+  | [t], pos, prev, f, h, _ => by
+    simp only [joinNl, nlMatches]
+    exact findIterAux_nil _ (fun s => '\n' ∉ s) (fun _ _ hq hm => hq (List.mem_cons_of_mem _ hm))
+      (fun p c r hq => lineBreakAt_none p (c :: r) hq) _ _ _ t (h t (by simp)).nl
+  | t :: t' :: rest, pos, prev, f, h, hb => by
+    have ht := h t (by simp)
+    rw [joinNl_cons2] at hb ⊢
+    have e : (t ++ '\n' :: joinNl (t' :: rest)).length + 1 + f = t.length + 1 + ((joinNl (t' :: rest)).length + 1 + f) := by
+      simp; omega
+    have hb2 : bsOk (joinNl (t' :: rest)) = true := by
+      have := bsOk_append_right (t ++ ['\n']) (joinNl (t' :: rest)) (by simpa using hb)
+      exact this
+    rw [e, scanLine4 _ _ t pos prev ht.nl hb (fun _ => ht.sp)]
+    rw [findIter_lines4 (t' :: rest) _ _ f (fun x hx => h x (List.mem_cons_of_mem _ hx)) hb2]
+    simp [nlMatches]
+
+open Mistletoe.Document in
+/-- `LineBreak.find` matches exactly the "\n" characters, each with an empty group 1 (soft breaks) -/
+theorem findIter_joinNl4 (ts : List Str) (h : ∀ t ∈ ts, LineOk4 t) (hb : bsOk (joinNl ts) = true) :
+    findIter lineBreakAt (joinNl ts) = nlMatches 0 ts := by
+  have := findIter_lines4 ts 0 none 0 h hb
+  simpa [findIter] using this
+
+/-! ## `tokenize_inner` -/
+
+open Mistletoe.Document in
+/-- `tokenizeInner_lines_gen` with its hypotheses about the scanners stated directly -/
+theorem tokenizeInner_lines_gen4 (types : List STok) (fn : Footnotes.Table) (ts : List Str)
+    (hc : types.count .lineBreak = 1) (hne : ts ≠ []) (hne' : ∀ t ∈ ts, t ≠ [])
+    (hother : ∀ t ∈ types, t ≠ .lineBreak → findOne (joinNl ts) [] [] t = [])
+    (hlb : findIter lineBreakAt (joinNl ts) = nlMatches 0 ts)
+    (hcore : findCoreTokens (joinNl ts) fn = .ok ([], []))
+    (hun : ∀ t ∈ ts, Unescape.unescape true t = t) :
+    tokenizeInner types fn (joinNl ts) = .ok (proseInlines ts) := by
+  have hfm : types.flatMap (findOne (joinNl ts) [] []) = (nlMatches 0 ts).map (ofRe .lineBreak true) := by
+    rw [flatMap_one _ .lineBreak types hother hc]
+    simp only [findOne, hlb]
+  unfold tokenizeInner
+  rw [findAll_core_gen _ _ _ hcore, hfm]
+  simp only
+  have hcs : ((nlMatches 0 ts).map (ofRe .lineBreak true)).zipIdx.map (fun (f, i) =>
+      ({ start := f.start, stop := f.stop, pstart := f.pstart, pend := f.pend, prec := prec f.cls,
+         inner := parseInner f.cls, cls := clsIndex types f.cls, ord := i } : Span.Cand)) =
+      ((nlMatches 0 ts).zipIdx 0).map (lbCand (clsIndex types .lineBreak)) := by
+    rw [List.zipIdx_map, List.map_map]
+    apply List.map_congr_left
+    intro ⟨m, i⟩ _
+    rfl
+  rw [hcs, tokenize_sep _ _ (sep_lines _ ts 0 0 0 (Nat.le_refl _))]
+  have := builds_lines_gen (joinNl ts) ((nlMatches 0 ts).map (ofRe .lineBreak true)) (clsIndex types .lineBreak) ts [] 0
+    rfl hne (fun t htm => ⟨hne' t htm, hun t htm⟩)
+    (by
+      intro i _ hi
+      simp only [List.length_nil, Nat.zero_add] at hi
+      have hm : (nlMatches 0 ts)[i]? = some ((nlMatches 0 ts)[i]) := List.getElem?_eq_getElem hi
+      refine ⟨(nlMatches 0 ts)[i], by rw [List.getElem?_map, hm]; rfl, ?_⟩
+      exact nlMatches_empty_group ts 0 _ (List.getElem_mem hi))
+  simp only [List.length_nil, Nat.zero_add] at this
+  rw [this]
+
+theorem inertBody4_parts (s : Str) (h : inertBody4 s = true) :
+    ScanOk4 s ∧ ampOk2 s = true ∧ brOkG false false s = true ∧ emphOk2 false false ' ' s = true := by
+  simp only [inertBody4, Bool.and_eq_true] at h
+  obtain ⟨⟨⟨⟨⟨h1, h2⟩, h3⟩, h4⟩, h5⟩, h6⟩ := h
+  exact ⟨⟨h1, h2, h4⟩, h3, h5, h6⟩
+
+theorem findCoreTokens_inertBody4 (s : Str) (h : inertBody4 s = true) : findCoreTokens s [] = .ok ([], []) := by
+  obtain ⟨hs, _, hb, he⟩ := inertBody4_parts s h
+  exact findCoreTokens_inert4 false s [] hs.bs (fun _ => rfl) hb he
+
+/-- one line: no class finds anything, `html.unescape` is the identity, one `RawText` -/
+theorem inline_inert4 (types : List STok) (s : Str) (ht : ∀ t ∈ types, inertClass t = true)
+    (h : inertBody4 s = true) (hnl : '\n' ∉ s) :
+    findAll s types [] = .ok [] ∧ Unescape.unescape true s = s ∧
+      (s ≠ [] → tokenizeInner types [] s = .ok [.rawText s]) := by
+  have hp := inertBody4_parts s h
+  have h1 := findAll_gen4 s types [] ht hp.1 (findCoreTokens_inertBody4 s h) hnl
+  have h2 := unescape_inert2 s hp.2.1
+  refine ⟨h1, h2, fun hne => ?_⟩
+  rw [tokenizeInner_no_candidates types [] s h1 hne, h2]
+
+open Mistletoe.Document in
+/-- several lines -/
+theorem tokenizeInner_lines4 (types : List STok) (ts : List Str)
+    (ht : ∀ t ∈ types, inertClass t = true) (hc : types.count .lineBreak = 1) (hne : ts ≠ [])
+    (hl : ∀ t ∈ ts, LineOk4 t) (hb : inertBody4 (joinNl ts) = true) :
+    tokenizeInner types [] (joinNl ts) = .ok (proseInlines ts) := by
+  have hp := inertBody4_parts _ hb
+  exact tokenizeInner_lines_gen4 types [] ts hc hne (fun t htm => (hl t htm).ne)
+    (fun t htm hne' => findOne_scan4 _ hp.1 t (ht t htm) hne')
+    (findIter_joinNl4 ts hl hp.1.bs) (findCoreTokens_inertBody4 _ hb)
+    (fun t htm => unescape_inert2 t (ampOk2_lines ts hp.2.1 t htm))
+
+open Mistletoe.Document in
+theorem lineOk_of_prose4 (ls : List Str) (h : ∀ l ∈ ls, proseLine l = true) : ∀ t ∈ ls.map strip, LineOk4 t := by
+  intro t ht
+  obtain ⟨l, hl, rfl⟩ := List.mem_map.mp ht
+  have f := proseLine_facts l (h l hl)
+  refine ⟨f.ne, f.nl, ?_⟩
+  intro e
+  have := f.last ' ' e
+  revert this; decide
+
+open Mistletoe.Document in
+/-- the `Paragraph` constructor on lines whose joined text satisfies `inertBody4` -/
+theorem mkBlocks_prose4 (cfg : Document.Cfg) (ls : List Str) (ln o : Nat)
+    (ht : ∀ t ∈ cfg.span, inertClass t = true) (hc : cfg.span.count .lineBreak = 1) (hne : ls ≠ [])
+    (h : ∀ l ∈ ls, proseLine l = true) (hb : inertBody4 (joinNl (ls.map strip)) = true) :
+    mkBlocks cfg [] [.paragraph ls ln o] = .ok [.paragraph (proseInlines (ls.map strip)) ln] := by
+  have hin : inl cfg [] (strip (ls.map lstrip).flatten) = .ok (proseInlines (ls.map strip)) := by
+    unfold inl
+    rw [paragraph_content ls hne h]
+    exact tokenizeInner_lines4 cfg.span _ ht hc (by simpa using hne) (lineOk_of_prose4 ls h) hb
+  simp only [mkBlocks, mkBlock, hin]
+
 end Mistletoe.InertInline3
+
+/-! ## C14 with literal backslashes -/
+
+namespace Mistletoe.Props.C14
+open Mistletoe Mistletoe.Py Mistletoe.Scan Mistletoe.Block Mistletoe.Inline Mistletoe.InertInline Mistletoe.InertInline2
+open Mistletoe.InertInline3
+open Mistletoe.Html Mistletoe.Escape
+
+/-- inert text on one line, literal backslashes allowed -/
+def inertText4 (s : Str) : Bool := inertBody4 s && !s.contains '\n'
+
+/-- **`inertBody4` is weaker than `inertBody3`** -/
+theorem C14_inertBody4_weaker (s : Str) (h : inertBody3 s = true) : inertBody4 s = true :=
+  inertBody3_inertBody4 s h
+
+/-- **`find_core_tokens` finds nothing under `inertBody4`** (empty table of definitions): the `escaped`
+    flag set by a literal backslash only skips a character that has no special meaning -/
+theorem C14_core_inert4 (s : Str) (h : inertBody4 s = true) : Core.findCoreTokens s [] = .ok ([], []) :=
+  findCoreTokens_inertBody4 s h
+
+/-- **The analogue of `C14_inline_inert3` for `inertBody4`**: for every list of covered classes, no
+    class finds a match, `html.unescape` is the identity on the text, and `tokenize_inner` returns
+    `[RawText(text)]` — backslashes included. -/
+theorem C14_inline_inert4 (types : List STok) (s : Str)
+    (ht : ∀ t ∈ types, inertClass t = true) (h : inertText4 s = true) :
+    findAll s types [] = .ok [] ∧ Unescape.unescape true s = s ∧
+      (s ≠ [] → tokenizeInner types [] s = .ok [.rawText s]) := by
+  simp only [inertText4, Bool.and_eq_true, Bool.not_eq_eq_eq_not, Bool.not_true, List.contains_eq_mem,
+    decide_eq_false_iff_not] at h
+  exact inline_inert4 types s ht h.1 h.2
+
+/-- **Several lines** (the analogue of `C14_inline_lines3`): only raw text and soft line breaks -/
+theorem C14_inline_lines4 (types : List STok) (ts : List Str)
+    (ht : ∀ t ∈ types, inertClass t = true) (hc : types.count .lineBreak = 1) (hne : ts ≠ [])
+    (hl : ∀ t ∈ ts, t ≠ [] ∧ '\n' ∉ t ∧ t.getLast? ≠ some ' ')
+    (hb : inertBody4 (Document.joinNl ts) = true) :
+    tokenizeInner types [] (Document.joinNl ts) = .ok (proseInlines ts) :=
+  tokenizeInner_lines4 types ts ht hc hne (fun t htm => ⟨(hl t htm).1, (hl t htm).2.1, (hl t htm).2.2⟩) hb
+
+theorem C14_prose4 (cfg : Document.Cfg) (hpar : .paragraph ∈ cfg.block.types)
+    (ht : ∀ t ∈ cfg.span, inertClass t = true) (hc : cfg.span.count .lineBreak = 1)
+    (ls : List Str) (hne : ls ≠ []) (hl : ∀ l ∈ ls, inertLine l = true ∧ proseLine l = true)
+    (hi : inertBody4 (Document.joinNl (ls.map strip)) = true) (gas : Nat) :
+    Document.parseLines cfg (gas + (cfg.block.types.length + 4)) ls =
+        .ok { kids := [.paragraph (proseInlines (ls.map strip)) 1], footnotes := [] } ∧
+    ∀ o : Opts, render o { kids := [.paragraph (proseInlines (ls.map strip)) 1], footnotes := [] } =
+        "<p>".toList ++ escapeHtmlText o.dq o.sq (Document.joinNl (ls.map strip)) ++ "</p>\n".toList := by
+  constructor
+  · unfold Document.parseLines
+    rw [C14_block_phase cfg.block hpar ls hne (fun s hs => (hl s hs).1) gas]
+    simp only
+    have e : Document.footnotesOf [] = [] := rfl
+    rw [e, mkBlocks_prose4 cfg ls 1 1 ht hc hne (fun s hs => (hl s hs).2) hi]
+  · intro o
+    exact render_prose o (ls.map strip) 1 []
+
+/-- **`C14_prose_text3` with `inertBody4`** (a `\` allowed before a character that is neither ASCII
+    punctuation nor "\n"): `Document(text)` for the text `l₁ ++ … ++ lₙ` of "\n"-terminated, block-inert
+    prose lines whose stripped lines joined by "\n" satisfy `inertBody4` is one `Paragraph` holding the
+    lines as `RawText`s separated by soft `LineBreak`s, and the HTML renderer gives `<p>`, the
+    HTML-escaped text (in which every backslash stands unchanged), `</p>` and a newline. -/
+theorem C14_prose_text4 (cfg : Document.Cfg) (hpar : .paragraph ∈ cfg.block.types)
+    (ht : ∀ t ∈ cfg.span, inertClass t = true) (hc : cfg.span.count .lineBreak = 1)
+    (ls : List Str) (hne : ls ≠ []) (h1 : ∀ l ∈ ls, oneLine l = true)
+    (hl : ∀ l ∈ ls, inertLine l = true ∧ proseLine l = true)
+    (hi : inertBody4 (Document.joinNl (ls.map strip)) = true) (gas : Nat) :
+    Document.parse cfg (gas + (cfg.block.types.length + 4)) ls.flatten =
+        .ok { kids := [.paragraph (proseInlines (ls.map strip)) 1], footnotes := [] } ∧
+    ∀ o : Opts, render o { kids := [.paragraph (proseInlines (ls.map strip)) 1], footnotes := [] } =
+        "<p>".toList ++ escapeHtmlText o.dq o.sq (Document.joinNl (ls.map strip)) ++ "</p>\n".toList := by
+  rw [parse_lines cfg _ ls h1]
+  exact C14_prose4 cfg hpar ht hc ls hne hl hi gas
+
+/-- the HTML escaping leaves a backslash alone -/
+theorem escapeHtmlText_backslash (dq sq : Bool) : escapeHtmlText dq sq ['\\'] = ['\\'] := by
+  cases dq <;> cases sq <;> decide +kernel
+
+/-! ### Non-vacuity -/
+
+/-- accepted by `inertBody4`, rejected by `inertBody3`: literal backslashes (before a letter, a digit,
+    a space, a non-ASCII character, a tab) -/
+example : [L "C:\\dir and a \\ b", L "\\a \\1 \\é", L "a\\\tb \\日", L "*a\\ *b and [x\\y] z"].map
+    (fun s => (inertBody4 s, inertBody3 s)) = List.replicate 4 (true, false) := by decide +kernel
+
+/-- rejected: backslash escapes (`\*`, `\\`, `` \` ``, `\<`, `\]`, `\&`), a backslash before a newline
+    (hard line break), a backslash at the end of the text; and what `inertBody3` rejects for another
+    reason stays rejected (`*\a*` is emphasis around a literal backslash) -/
+example : [L "a\\*b", L "x\\\ny", L "\\\\", L "a\\", L "\\`x", L "\\<a>", L "[a\\](b)", L "\\&amp;", L "\\", L "*\\a*",
+    L "[a](b\\c)", L "`\\a`"].map inertBody4 = List.replicate 12 false := by decide +kernel
+
+example : htmlOf (L "C:\\dir and a \\ b\n") = .ok (L "<p>C:\\dir and a \\ b</p>\n") := by decide +kernel
+example : htmlOf (L "\\a \\1 \\é\n") = .ok (L "<p>\\a \\1 \\é</p>\n") := by decide +kernel
+example : htmlOf (L "*a\\ *b and [x\\y] z\n") = .ok (L "<p>*a\\ *b and [x\\y] z</p>\n") := by decide +kernel
+/-- … whereas these are markup -/
+example : htmlOf (L "a\\*b\n") = .ok (L "<p>a*b</p>\n") := by decide +kernel
+example : htmlOf (L "x\\\ny\n") = .ok (L "<p>x<br />\ny</p>\n") := by decide +kernel
+example : htmlOf (L "\\\\\n") = .ok (L "<p>\\</p>\n") := by decide +kernel
+example : htmlOf (L "*\\a*\n") = .ok (L "<p><em>\\a</em></p>\n") := by decide +kernel
+
+/-- through the theorem: one `RawText` holding exactly the text -/
+example : tokenizeInner htmlSpanTypes [] (L "C:\\dir and a \\ b") = .ok [.rawText (L "C:\\dir and a \\ b")] :=
+  (C14_inline_inert4 htmlSpanTypes _ htmlSpanTypes_inert (by decide +kernel)).2.2 (by decide)
+example : tokenizeInner htmlSpanTypes [] (L "\\a \\1 \\é") = .ok [.rawText (L "\\a \\1 \\é")] :=
+  (C14_inline_inert4 htmlSpanTypes _ htmlSpanTypes_inert (by decide +kernel)).2.2 (by decide)
+
+def prose4 : List Str := [L "  C:\\dir and a \\ b\n", L "\\a \\1 \\é [x\\y] 2* 3*\n", L "end\\ of it\n"]
+
+theorem prose4_lines_ok : ∀ l ∈ prose4, inertLine l = true ∧ proseLine l = true := by decide +kernel
+theorem prose4_text_ok : inertBody4 (Document.joinNl (prose4.map strip)) = true := by decide +kernel
+example : inertBody3 (Document.joinNl (prose4.map strip)) = false := by decide +kernel
+
+/-- instance of `C14_prose_text4` (the right-hand sides are literal) -/
+example : Document.parse cfgHtml 14 (L "  C:\\dir and a \\ b\n\\a \\1 \\é [x\\y] 2* 3*\nend\\ of it\n") =
+    .ok { kids := [.paragraph [.rawText (L "C:\\dir and a \\ b"), .lineBreak [] true,
+                               .rawText (L "\\a \\1 \\é [x\\y] 2* 3*"), .lineBreak [] true,
+                               .rawText (L "end\\ of it")] 1], footnotes := [] } :=
+  (C14_prose_text4 cfgHtml (by decide) htmlSpanTypes_inert (by decide) prose4 (by decide) (by decide +kernel)
+    prose4_lines_ok prose4_text_ok 0).1
+
+example : ∃ d, Document.parse cfgHtml 14 prose4.flatten = .ok d ∧ render {} d =
+    L "<p>C:\\dir and a \\ b\n\\a \\1 \\é [x\\y] 2* 3*\nend\\ of it</p>\n" := by
+  obtain ⟨h1, h2⟩ := C14_prose_text4 cfgHtml (by decide) htmlSpanTypes_inert (by decide) prose4 (by decide)
+    (by decide +kernel) prose4_lines_ok prose4_text_ok 0
+  exact ⟨_, h1, by rw [h2]; decide +kernel⟩
+
+end Mistletoe.Props.C14
